@@ -6,9 +6,9 @@ package main
 
 import (
 	"fmt"
-	"os"
 	"go/types"
 	"math/big"
+	"os"
 	"runtime/debug"
 	"sort"
 	"strings"
@@ -82,40 +82,40 @@ func NewResults() *Results {
 }
 
 type Config struct {
-	Harness     string
-	MaxPaths    int
-	UnwindLimit int // max visits of one block per frame activation
-	Preempt     int // preemption budget
-	StepLimit   int64
-	Workers     int
-	SolverBin   string
-	Fallback    []string
-	QueryMs     int
-	MaxViol     int // stop collecting after this many violations per check
-	KeepScripts bool
-	Witnesses   int
-	RelaxTrunc  bool
-	PatienceMs  int
-	BudgetS     int
-	FreeSched   bool
-	Thorough    bool
+	Harness       string
+	MaxPaths      int
+	UnwindLimit   int // max visits of one block per frame activation
+	Preempt       int // preemption budget
+	StepLimit     int64
+	Workers       int
+	SolverBin     string
+	Fallback      []string
+	QueryMs       int
+	MaxViol       int // stop collecting after this many violations per check
+	KeepScripts   bool
+	Witnesses     int
+	RelaxTrunc    bool
+	PatienceMs    int
+	BudgetS       int
+	FreeSched     bool
+	Thorough      bool
 	MaxTimerFires int
-	Known       []string
-	Seed        int
-	Verbose     bool
+	Known         []string
+	Seed          int
+	Verbose       bool
 }
 
 type Engine struct {
-	prog    *ssa.Program
-	pkgs    map[string]*ssa.Package
-	cfg     Config
-	res     *Results
-	entry   *ssa.Function
-	wlMu    sync.Mutex
-	wl      [][]int
-	active  int
-	wlCond  *sync.Cond
-	stopped bool
+	prog      *ssa.Program
+	pkgs      map[string]*ssa.Package
+	cfg       Config
+	res       *Results
+	entry     *ssa.Function
+	wlMu      sync.Mutex
+	wl        [][]int
+	active    int
+	wlCond    *sync.Cond
+	stopped   bool
 	budgetHit bool
 }
 
@@ -143,21 +143,23 @@ type Machine struct {
 	localChecks map[string]*CheckStat
 
 	// concurrency state (conc.go)
-	threads     []*Thread
-	cur         *Thread
-	killed      bool
-	preemptLeft int
-	doneCh      chan struct{}
-	outcome     PathOutcome
-	side        map[*Value]interface{} // side tables for sync primitives keyed by slot address
-	clock       *Term
-	ghost       map[string]Value
-	elemOf      map[*Value]elemRef
-	timerFires  int
-	exitChecks  []exitCheck
-	obsNames    []string
-	obsTerms    []*Term
-	accessLog   *raceLog
+	threads      []*Thread
+	cur          *Thread
+	killed       bool
+	preemptLeft  int
+	doneCh       chan struct{}
+	outcome      PathOutcome
+	side         map[*Value]interface{} // side tables for sync primitives keyed by slot address
+	clock        *Term
+	ghost        map[string]Value
+	elemOf       map[*Value]elemRef
+	timerFires   int
+	ignoreTimers bool
+	pools        map[*Value][]pooled // sync.Pool contents of the current path
+	exitChecks   []exitCheck
+	obsNames     []string
+	obsTerms     []*Term
+	accessLog    *raceLog
 }
 
 func (e *Engine) push(p []int) {
@@ -281,6 +283,8 @@ func (m *Machine) runPath(prefix []int) {
 	m.obsTerms = nil
 	m.elemOf = map[*Value]elemRef{}
 	m.timerFires = 0
+	m.ignoreTimers = false
+	m.pools = map[*Value][]pooled{}
 	m.exitChecks = nil
 	m.accessLog = nil
 	m.localChecks = map[string]*CheckStat{}
@@ -763,4 +767,9 @@ func (m *Machine) collectWitness() {
 		res.Witnesses = append(res.Witnesses, w)
 	}
 	res.mu.Unlock()
+}
+
+type pooled struct {
+	v  Value
+	vc []int
 }
